@@ -85,8 +85,11 @@ def showStream (l : List (Nat × Option Bytes)) : String :=
 /-- `LIN <maxDepth> <world> <output> <start> <stop> …` → the non-empty outputs of the linear specification -/
 def step (line : String) : String :=
   match words line with
-  | "LIN" :: md :: world :: output :: start :: stop :: _ =>
+  | "LIN" :: md :: world :: output :: start :: stop :: rest =>
     let (l, failed) := linearSpec (parseWorld world) (nat! md) (bytesOf output) (nat! start) (nat! stop)
+    -- "failonly": a failing production request delivers whole segments only; the harness checks the prefix on the
+    -- real messages, the correspondence compares the failing block
+    if failed.isSome && rest.contains "failonly" then (match failed with | some b => s!"fail@{b}" | none => "") else
     showStream l ++ (match failed with | some b => s!" fail@{b}" | none => "")
   | "DLV" :: md :: world :: output :: start :: stop :: handoff :: rest =>
     -- delivered data messages of the request: `num` or `num e` (empty payload) plus the payloads' digest
